@@ -143,7 +143,7 @@ def run_wb(cx):
     deltas = range(-4, 5)
     for k in (1, 2, 3):
         for dl in deltas:
-            depths = range(1, 7) if cx.tier == "thorough" else rng.sample(range(1, 7), 3)
+            depths = range(1, 7)
             for dp in depths:
                 chunk.append(boundary_case(rng, k, dl, dp))
     for _ in range(cx.n(60, 400)):
@@ -167,7 +167,7 @@ def run_wb(cx):
         for k in range(ns):
             skips.append((k, ops))
     skips = rng.sample(skips, min(len(skips), cx.n(1500, 20000)))
-    for _ in range(cx.n(100, 800)):
+    for _ in range(cx.n(200, 800)):
         ops = boundary_case(rng, rng.choice([1, 1, 2]), rng.choice([-2, -1, 0, 1, 2]), rng.randrange(2, 6))
         skips.append((rng.randrange(ops.count("s")), ops))
     # the two witnesses of F50 and their fine neighbours
